@@ -326,9 +326,19 @@ func newClientSys(rec *recorder, chain []string, builtin ...bool) (system, error
 		}()
 		return a, nil
 	}
-	cl, err := kmipclient.Dial("mem", kmipclient.WithDialerUnsafe(dial), kmipclient.EnforceVersion(kmip.V1_4), kmipclient.WithMiddlewares(mws...))
+	list := append(make([]kmipclient.Middleware, 0, len(mws)+4), mws...)
+	cl, err := kmipclient.Dial("mem", kmipclient.WithDialerUnsafe(dial), kmipclient.EnforceVersion(kmip.V1_4), kmipclient.WithMiddlewares(list...))
 	if err != nil {
 		return nil, err
+	}
+	// the application reuses the list it configured the client with
+	list = list[:cap(list)]
+	for i := range list {
+		list[i] = func(next kmipclient.Next, ctx context.Context, msg *kmip.RequestMessage) (*kmip.ResponseMessage, error) {
+			u, m := reqTokens(msg)
+			rec.emit(u, Event{E: "enter", S: 99, C: ctxToken(ctx), M: m})
+			return next(ctx, msg)
+		}
 	}
 	sys.cl = cl
 	return sys, nil
@@ -378,19 +388,72 @@ func newSrvSys(rec *recorder, chain []string, item bool, late ...bool) system {
 	}
 	warm()
 	defer warm()
+	isLate := len(late) > 0 && late[0]
+	var items []kmipserver.BatchItemMiddleware
+	var msgs []kmipserver.Middleware
 	for i, p := range chain {
 		if i > 0 {
 			warm()
 		}
 		s, prog := i+1, progs[p]
 		if item {
-			ex.BatchItemUse(func(next kmipserver.BatchItemNext, ctx context.Context, bi *kmip.RequestBatchItem) (*kmip.ResponseBatchItem, error) {
+			f := func(next kmipserver.BatchItemNext, ctx context.Context, bi *kmip.RequestBatchItem) (*kmip.ResponseBatchItem, error) {
 				return interp(rec, s, prog, ctx, bi, itemTokens, replaceItem, ownItem, resOfItem, next)
-			})
+			}
+			if isLate {
+				ex.BatchItemUse(f)
+			} else {
+				items = append(items, f)
+			}
 		} else {
-			ex.Use(func(next kmipserver.Next, ctx context.Context, msg *kmip.RequestMessage) (*kmip.ResponseMessage, error) {
+			f := func(next kmipserver.Next, ctx context.Context, msg *kmip.RequestMessage) (*kmip.ResponseMessage, error) {
 				return interp(rec, s, prog, ctx, msg, reqTokens, replaceReq, ownResp, resOfMsg, next)
-			})
+			}
+			if isLate {
+				ex.Use(f)
+			} else {
+				msgs = append(msgs, f)
+			}
+		}
+	}
+	if !isLate {
+		// The chain is registered the way an application holding a list of middlewares does it: all stages but the last from one
+		// list (with spare capacity) that also configures a second executor, then one more stage on each; afterwards the
+		// application reuses its list. A registered chain consists of the stages registered on it, whatever happens to the
+		// slices they were passed in.
+		other := kmipserver.NewBatchExecutor()
+		other.Route(kmip.OperationActivate, coreHandler{rec})
+		decoyMsg := func(next kmipserver.Next, ctx context.Context, msg *kmip.RequestMessage) (*kmip.ResponseMessage, error) {
+			u, m := reqTokens(msg)
+			rec.emit(u, Event{E: "enter", S: 99, C: ctxToken(ctx), M: m})
+			return next(ctx, msg)
+		}
+		decoyItem := func(next kmipserver.BatchItemNext, ctx context.Context, bi *kmip.RequestBatchItem) (*kmip.ResponseBatchItem, error) {
+			u, m := itemTokens(bi)
+			rec.emit(u, Event{E: "enter", S: 99, C: ctxToken(ctx), M: m})
+			return next(ctx, bi)
+		}
+		if n := len(msgs); n > 0 {
+			list := append(make([]kmipserver.Middleware, 0, n+4), msgs[:n-1]...)
+			ex.Use(list...)
+			other.Use(list...)
+			ex.Use(msgs[n-1])
+			other.Use(decoyMsg)
+			list = list[:cap(list)]
+			for i := range list {
+				list[i] = decoyMsg
+			}
+		}
+		if n := len(items); n > 0 {
+			list := append(make([]kmipserver.BatchItemMiddleware, 0, n+4), items[:n-1]...)
+			ex.BatchItemUse(list...)
+			other.BatchItemUse(list...)
+			ex.BatchItemUse(items[n-1])
+			other.BatchItemUse(decoyItem)
+			list = list[:cap(list)]
+			for i := range list {
+				list[i] = decoyItem
+			}
 		}
 	}
 	return &srvSys{ex: ex}
